@@ -131,6 +131,21 @@ class C11(core.Prop):
                 t['rings'] = [[els[0], els[3], 'd', 's'], [els[0], els[2], 'd', 'n']]
                 out.append({'g': t, 'base': base4, 'names': ['A', 'B', 'A', 'B'], 'aa': aa, 'syms': syms, 'virt': [], 'zero_ring': True,
                             'zero_first': True})
+        # more virtual than real nodes, nine nodes in all, the last real node at key 8 (a ring of four real nodes after five
+        # virtual ones): sizes at which views over node *sets* stop iterating in key order
+        for aa in (True, False):
+            ch = copy.deepcopy([t_ for t_ in gg.tree_shapes(4, max_nest=1) if len(t_['chain']) == 4][0])
+            ch.pop('parent', None)
+            els = [e['v'] for e in gg.elems(ch['chain'])]
+            base9 = copy.deepcopy(ch)
+            base9['rings'] = [[els[0], els[3], 'd', 'n']]
+            g9 = copy.deepcopy(base9)
+            virt = [100 + k for k in range(5)]
+            g9['chain'][0]['ord'] = 'o%d' % els[0]
+            g9['chain'] = [{'v': v, 'ord': (None if k == 0 else 'o%d' % v), 'ann': 'none', 'nl': 1, 'mult': None, 'br': []}
+                           for k, v in enumerate(virt)] + g9['chain']
+            out.append({'g': g9, 'base': base9, 'names': ['A', 'B', 'A', 'B'], 'aa': aa, 'syms': '.-', 'virt': virt,
+                        'zero_ord': ['o%d' % v for v in virt[1:]]})
         # the same strings handed over as a base graph (MoleculeResolver.from_graph); every third shape
         for s in list(out)[::3]:
             out.append(dict(s, entry='graph'))
@@ -145,6 +160,8 @@ class C11(core.Prop):
     def build(self, shape):
         g = shape['g']
         rec = gg.make_holes(g, symbols=shape['syms'])
+        for oid in shape.get('zero_ord', []):
+            rec['ord'][oid] = '.'          # links between the virtual nodes themselves: written as zero-order bonds
         real = [e['v'] for e in gg.elems(shape['base']['chain'])]
         for v, nm in zip(real, shape['names']):
             rec['name'][str(v)] = nm
